@@ -111,11 +111,11 @@ pub fn run(ctx: &Ctx, rep: &mut Report) {
     let lens = sweep_lengths(ctx.tier);
     let items = lens.iter().flat_map(|&len| (0u8..3).map(move |filling| LenCase { len, filling }));
     engine::enumerate(ctx, rep, "length-sweep", items, check_len);
-    let cases = ctx.share(ctx.tier.pick(6_000, 400_000));
+    let cases = ctx.share(ctx.tier.pick(20_000, 400_000));
     engine::drive(ctx, rep, "random", codec::codec_case(false), cases, check_case);
-    let cases = ctx.share(ctx.tier.pick(1_500, 60_000));
+    let cases = ctx.share(ctx.tier.pick(6_000, 60_000));
     engine::drive(ctx, rep, "chunk-boundary", boundary_case(), cases, check_case);
-    let cases = ctx.share(ctx.tier.pick(600, 40_000));
+    let cases = ctx.share(ctx.tier.pick(2_000, 40_000));
     engine::drive(ctx, rep, "random-large", codec::codec_case(true), cases, check_case);
 }
 
